@@ -24,10 +24,15 @@ theorem pyGet_pred (idx : List Int) (m : Nat) (h0 : m ≠ 0) (h : m ≤ idx.leng
   have e : (m : Int) - 1 = ((m - 1 : Nat) : Int) := by omega
   rw [e, pyGet_idxAt idx (m - 1) (by omega)]
 
+/-- Python's `x // 2` is Lean's `x / 2` on `Int` (floor = Euclidean division for a positive divisor): after this rewrite
+    `omega` decides any equation between midpoint expressions (`a + (z - a)//2`, `(a + z)//2`, …) -/
+theorem pyDiv_two_ediv (x : Int) : pyDiv x 2 = x / 2 := by
+  unfold pyDiv
+  exact Int.fdiv_eq_ediv_of_nonneg _ (by omega)
+
 /-- `pyDiv (z - a) 2` on naturals `a ≤ z` is `Nat` division -/
 theorem pyDiv_two (a z : Nat) (h : a ≤ z) : pyDiv ((z : Int) - (a : Int)) 2 = (((z - a) / 2 : Nat) : Int) := by
-  unfold pyDiv
-  rw [Int.fdiv_eq_ediv_of_nonneg _ (by omega)]
+  rw [pyDiv_two_ediv]
   omega
 
 /-! ### the binary search -/
